@@ -5,6 +5,7 @@ package absnfs
 func init() {
 	vpRegister("VPH_C26_readdir", VPH_C26_readdir)
 	vpRegister("VPH_C26_readdirplus", VPH_C26_readdirplus)
+	vpRegister("VPH_C26_under_timeouts", VPH_C26_under_timeouts)
 }
 
 var vpNameLens = []int{1, 2, 3, 4, 5, 252, 253, 254, 255}
@@ -144,3 +145,61 @@ func vpPaging(plus bool) {
 
 func VPH_C26_readdir()     { vpPaging(false) }
 func VPH_C26_readdirplus() { vpPaging(true) }
+
+// VPH_C26_under_timeouts: the request's deadline may pass at any look the code takes at its context.
+// A READDIR / READDIRPLUS that then still answers NFS3_OK (with room for everything) lists the whole
+// directory: a deadline turns the call into an error, never into a shorter listing that says eof.
+func VPH_C26_under_timeouts() {
+	E := 2
+	if vpTier() == 1 {
+		E = 3
+	}
+	fs := vpNewFS()
+	fs.addDir("/d")
+	names := []string{"a", "bb", "ccc"}[:E]
+	for i, n := range names {
+		if i%2 == 0 {
+			fs.addFile("/d/"+n, int64(i))
+		} else {
+			fs.addDir("/d/" + n)
+		}
+	}
+	env := vpServer(fs, ExportOptions{EnableDirCache: vpBool("dircache")})
+	h := env.handleFor("/d")
+	if vpBool("listing-warm") {
+		var w vpBuf
+		env.call(NFSPROC3_READDIR, w.fh(h).u64(0).raw(make([]byte, 8)).u32(8192).Bytes())
+	}
+	plus := vpBool("plus")
+	var b vpBuf
+	proc := uint32(NFSPROC3_READDIR)
+	if plus {
+		proc = NFSPROC3_READDIRPLUS
+		b.fh(h).u64(0).raw(make([]byte, 8)).u32(8192).u32(32768)
+	} else {
+		b.fh(h).u64(0).raw(make([]byte, 8)).u32(8192)
+	}
+	vpTimeoutsOn = true
+	reply := env.call(proc, b.Bytes())
+	vpTimeoutsOn = false
+	vpAssert(reply != nil, "reply")
+	rd := &vpRd{b: vpReplyBytes(reply)}
+	st := rd.u32()
+	vpObserve("status", st)
+	if st != NFS_OK {
+		vpReach("call-failed-on-deadline")
+		return
+	}
+	vpReach("answered")
+	rd.postOp()
+	rd.u64()
+	ents, eof := vpReadEntries(rd, plus)
+	vpAssert(rd.done(), "reply-shape")
+	vpAssert(eof, "everything-fits-so-eof")
+	vpAssert(len(ents) == E, "answered-listing-is-complete-whatever-the-deadline-did")
+	for i := range ents {
+		if i < E {
+			vpAssert(ents[i].name == names[i], "entry-name")
+		}
+	}
+}
